@@ -322,13 +322,35 @@ def scalar_vcs() -> List[core.VC]:
     vcs: List[core.VC] = []
     g = extract.get_function(UT, "normalize_gpu_stream_numbers")
     src = ast.unparse(extract.stripped(g)).replace("'", '"')
-    want = ["return int(stream_number)", "except ValueError:", "return -1", 'df["stream"] = df.apply(lambda r: _normalize_stream_number(r["stream"]), axis=1)']
+    want = ['df["stream"] = df.apply(lambda r: _normalize_stream_number(r["stream"]), axis=1)']
     lines = {l.strip() for l in src.splitlines()}
     missing = [w for w in want if w not in lines]
     if missing:
         raise pyvc.Unsupported("normalize_gpu_stream_numbers no longer matches the contract's reading: " + "; ".join(missing))
     vcs.append(core.VC(f"{PROP}.normalize_gpu_stream_numbers.statements", [], z3.BoolVal(True), "vc", [g.fq], {},
-                       note="stream = int(stream) for every row, -1 when that raises ValueError (try/except is outside the PyVC subset: statement correspondence)"))
+                       note="the stream column is rewritten row by row with _normalize_stream_number(row's stream) (statement correspondence)"))
+    # the scalar function itself, executed with its try/except: int(x) either converts or raises ValueError
+    nf = extract.get_function(UT, "normalize_gpu_stream_numbers._normalize_stream_number")
+    convertible = z3.Bool("stream_converts_to_int")
+    ival = z3.Int("stream_as_int")
+
+    @pyvc.intrinsic
+    def _int(exq, pc, env, args, kwargs):
+        if len(args) != 1 or args[0] is not raw:
+            raise pyvc.Unsupported("int() of something else than the raw stream value")
+        return pyvc.PathValues([(convertible, ival), (z3.Not(convertible), pyvc.Raises("ValueError"))])
+
+    raw = pyvc.Opaque("raw stream value")
+    exn = pyvc.Exec(name=f"{PROP}.normalize_stream_number", intrinsics={"int": _int})
+    outs = exn.run_function(extract.stripped(nf), {"stream_number": raw}, [])
+    res, raise_cond = pyvc.merged_return(outs)
+    if res is None:
+        raise pyvc.Unsupported("_normalize_stream_number never returns")
+    vcs += [core.VC(pv.name, pv.hyps, pv.goal, "vc", [nf.fq], {}, note=pv.note) for pv in exn.vcs]
+    vcs.append(core.VC(f"{PROP}.normalize_stream_number.value", [], to_z3(res) == z3.If(convertible, ival, -1), "vc", [nf.fq], {"convertible": convertible, "stream_as_int": ival, "result": to_z3(res)},
+                       note="int(stream) when the conversion succeeds, -1 when it raises ValueError"))
+    vcs.append(core.VC(f"{PROP}.normalize_stream_number.never_raises", [], z3.Not(to_z3(raise_cond)), "vc", [nf.fq], {"convertible": convertible}))
+    vcs.append(core.VC(f"{PROP}.normalize_stream_number.vacuity", [z3.Not(convertible)], z3.BoolVal(False), "vacuity", [nf.fq], {}))
     h = extract.get_function(TP, "_compress_df")
     lam = None
     for n in ast.walk(h.node):
@@ -459,10 +481,54 @@ def units(ctx):
             core.Unit(f"{PROP}.scalars", scalar_vcs, [UT + ".normalize_gpu_stream_numbers", TP + "._compress_df"])]
 
 
+def replay(ctx, rec: Dict[str, Any]) -> Dict[str, Any]:
+    """Counter-models of the scalar obligations, run through the real functions."""
+    import math
+    from fractions import Fraction
+
+    import pandas as pd
+
+    m = rec.get("model") or {}
+    name = rec.get("name", "")
+    if ".normalize_stream_number." in name and "convertible" in m:
+        from hta.utils.utils import normalize_gpu_stream_numbers
+
+        conv = str(m["convertible"]) == "True"
+        raw = int(str(m.get("stream_as_int", 0))) if conv else "not-a-number"
+        df = pd.DataFrame({"stream": pd.Series([raw], dtype=object)})
+        try:
+            normalize_gpu_stream_numbers(df)
+            got = df["stream"].iloc[0]
+        except Exception as e:  # noqa: BLE001
+            got = f"{type(e).__name__}: {e}"
+        want = raw if conv else -1
+        return {"confirmed": got != want, "input": {"stream": raw}, "observed": {"stream": got if isinstance(got, str) else int(got)}, "expected": {"stream": want},
+                "how": "hta.utils.utils.normalize_gpu_stream_numbers on a one-row frame"}
+    if ".round_down_time_stamps." in name and "ts" in m and "dur" in m:
+        from hta.common.trace_parser import round_down_time_stamps
+
+        def num(x):
+            x = str(x).replace("?", "")
+            return Fraction(x) if "/" in x else Fraction(x)
+
+        ts, dur = num(m["ts"]), num(m["dur"])
+        if float(ts) != ts or float(dur) != dur or float(ts + dur) != ts + dur:
+            return {"confirmed": False, "why": "the model is not exactly representable in binary floating point"}
+        df = pd.DataFrame({"ts": [float(ts)], "dur": [float(dur)], "name": ["x"]})
+        try:
+            round_down_time_stamps(df)
+            got = {"ts": int(df["ts"].iloc[0]), "end": int(df["end"].iloc[0]), "dur": int(df["dur"].iloc[0])}
+        except Exception as e:  # noqa: BLE001
+            return {"confirmed": True, "input": {"ts": float(ts), "dur": float(dur)}, "observed": f"{type(e).__name__}: {e}"}
+        want = {"ts": math.ceil(ts), "end": math.floor(ts + dur), "dur": math.floor(ts + dur) - math.ceil(ts)}
+        return {"confirmed": got != want, "input": {"ts": float(ts), "dur": float(dur)}, "observed": got, "expected": want, "how": "hta.common.trace_parser.round_down_time_stamps on a one-row frame"}
+    return {"confirmed": False, "why": "no replay for this obligation"}
+
+
 SPEC = Spec(
-    prop=PROP, level="other",
+    prop=PROP, level="other", replay=replay,
     functions=[(TP, "round_down_time_stamps"), (TR, "parse_trace_file"), (TR, "Trace._align_all_ranks"), (TR, "Trace.load_traces"), (TP, "_compress_df"),
-               (UT, "normalize_gpu_stream_numbers"), (TR, "add_fwd_bwd_links"), (TR, "add_iteration")],
+               (UT, "normalize_gpu_stream_numbers"), (UT, "normalize_gpu_stream_numbers._normalize_stream_number"), (TR, "add_fwd_bwd_links"), (TR, "add_iteration")],
     units=units, bounded=[Bounded("load_vs_json", bounded)],
     trusted=["pandas contracts (column arithmetic, apply, Series.min, set_index, label alignment) listed under assumptions", "math.ceil / math.floor on reals",
              "JSON text -> Python objects; ijson back-ends are not installed (get_default_trace_parsing_backend returns JSON)"],
